@@ -406,7 +406,8 @@ def correspond(res, rng, tier):
                               "pytype": types[name], "model_sem": ms, "model_rules": mt, "prog": p,
                               "failing_run": program_src(p, witness[0]), "not_admitted": witness[1]})
   # ---- stream 2 (exploration beyond the theorem's fragment; the property's own oracle, applied directly) ----
-  fam = c01x.truthiness_family() + c01x.narrowing_family()   # deterministic families, always in full
+  fam = (c01x.truthiness_family() + c01x.narrowing_family() + c01x.call_family()
+         + c01x.store_family())   # deterministic families, always in full
   xpool = [x for b in xb for x in pool_x(b)]
   n_listed += sum(1 for x in xpool if x in skip)
   xsrcs = fam + [x for x in xpool if x not in skip]
@@ -447,7 +448,9 @@ def correspond(res, rng, tier):
                      "module-level value and instance attribute must be admitted by the real stub; it always contains two "
                      "deterministic families in full: truth value through every placement of __len__/__bool__ in "
                      "single/multiple/deep inheritance used in every condition position, and isinstance narrowing of every "
-                     "scalar/container kind against every builtin class plus unions of tuples of all length pairs")
+                     "scalar/container kind against every builtin class plus unions of tuples of all length pairs; repeated calls of "
+                     "one function with ==-equal constants of different types; containers stored into on one path only "
+                     "and read back with a constant key")
   res.cov["distribution"] = stats
   res.add_samples([program_src(progs[0]), {"pyi": results[0].get("pyi", "")[:400]}])
   return disagreements
